@@ -96,6 +96,15 @@ CHECKS.update({
         note="The job limit (an asyncio loop counting running tasks) and promoted hash jobs are not state and are outside. Scheduler._derive_job is stubbed in these obligations. Bounds: K=4 nodes quick, 5 thorough; 2 resource requirements, 2 available resources with 0..3 units.",
     ),
 })
+CHECKS.update({
+    "C11": dict(
+        engine="E-SQL + E-XH",
+        ref="DESIGN.md section 5 / C11",
+        technique="bounded SMT over a symbolic relational database (E-SQL): the live UPDATE/PROPAGATE_CHECK_AFTER, RECONCILE_TARGET_DIRS and the optional-step SQL of finalize are given a z3 semantics and the real Scheduler._update_meta_after, Workflow.reconcile_targets and revert_optional_steps run natively against it; CrossHair for need_threshold and tui._normalize_targets",
+        text="From any database state within the capacity bound: after the scheduler's recomputation the cached need of every active step equals the least fixed point of the need equation written from the property text (own need; TARGET for producers of regular outputs named by a target or under a directory target; consumers' needs through pending/regular/orphan rules); reconcile_targets leaves no step with a stale need unflagged for ANY previous target configuration; dropping an input edge or detaching a consumer flags the producers; revert_optional_steps reverts exactly the attached OPTIONAL non-pending steps and queues exactly their regular (with hash) and volatile (without) outputs; the dispatch threshold is DEFAULT iff targets exist; a raw target is a directory target iff it ends in '/'.",
+        note="'Executed' in the sense of commands run is C10/C03; here: the need attribute and the revert pass. Bounds: K=4 nodes, D=2-3 edges quick; K=5 thorough; labels from {a, b, d/x}, one directory target d/. Two genuine defects found and repaired (see known_findings.json).",
+    ),
+})
 NOT_APPLICABLE = {
     "C15": "Atomicity/isolation are delivered by SQLite's C transaction machinery (BEGIN IMMEDIATE/commit/rollback) and asyncio task scheduling; the remaining Python has no symbolic input for a solver to range over, and a model of rollback would restate the assumption (DESIGN.md section 6).",
 }
